@@ -5,9 +5,10 @@ from __future__ import annotations
 import ast
 
 from ..core import rule
-from ..dataflow import DefUse
-from ..program import AnalysisError, dotted, src, walk_local
-from .common import where
+from ..dataflow import DefUse, origins
+from ..program import AnalysisError, dotted, src
+from ..core import walk_local  # inline-aware
+from .common import where, loops_over
 from .storelib import facts, node_desc
 from .c14 import IMPORTERS, mapping_obligations
 
@@ -56,9 +57,10 @@ def u1(ctx):
         fi = ctx.own_method(cq, "_check_duplicate")
         cfg = ctx.cfg(fi)
         du = DefUse(cfg)
-        lookups = [n for n in cfg.stmt_nodes() if any(isinstance(x, ast.Subscript) and dotted(x.value) == REV and isinstance(x.ctx, ast.Load)
-                                                       for e in n.exprs() for x in ast.walk(e))
-                   or any(isinstance(c.func, ast.Attribute) and c.func.attr == "get" and dotted(c.func.value) == REV for c in n.calls())]
+        pos = [p for p in fi.params if p not in ("self", "cls")]
+        p_uid = pos[0] if pos else "uid"
+        p_name = pos[1] if len(pos) > 1 else "name"
+        lookups = [n for n in cfg.stmt_nodes() if any(_is_rev_read(x) for e in n.exprs() for x in ast.walk(e))]
         scans = [n for n in cfg.stmt_nodes() for c in n.calls() if dotted(c.func) == "self._scan_uids"]
         if not lookups:
             obs.append(ctx.bad(fi.qualname, fi.where, "looks the uid up in the reverse map", "%s no longer consults %s" % (fi.short, REV)))
@@ -72,22 +74,25 @@ def u1(ctx):
             obs.append(ctx.bad(fi.qualname, fi.where, "raises DuplicateUidError", "%s never raises DuplicateUidError" % fi.short))
         for r in raises:
             good = False
-            for t, pol in cfg.required_conditions(r):
-                if isinstance(t, ast.Compare) and len(t.ops) == 1 and isinstance(t.ops[0], (ast.NotEq, ast.Eq)) \
-                        and pol == isinstance(t.ops[0], ast.NotEq):
-                    sides = [t.left, t.comparators[0]]
-                    names = [s.id for s in sides if isinstance(s, ast.Name)]
-                    if "name" in names and len(names) == 2:
-                        other = [x for x in names if x != "name"][0]
-                        for d in du.reaching(r, other):
-                            v = d.value
-                            if v is not None and any(isinstance(x, ast.Subscript) and dotted(x.value) == REV for x in ast.walk(v)) and d.index[:1] == (0,):
-                                good = True
-                            if v is not None and any(isinstance(x, ast.Subscript) and dotted(x.value) == REV for x in ast.walk(v)) and \
-                                    isinstance(v, ast.Subscript) and isinstance(v.slice, ast.Constant) and v.slice.value == 0:
-                                good = True
+            for tnode in [t for t in cfg.nodes if t.kind == "test"]:
+                t = tnode.ast
+                if not (isinstance(t, ast.Compare) and len(t.ops) == 1 and isinstance(t.ops[0], (ast.NotEq, ast.Eq))):
+                    continue
+                # reaching the raise requires the comparison to say 'different'
+                want = "t" if isinstance(t.ops[0], ast.NotEq) else "f"
+                other = [(tnode, m, l) for m, l in tnode.succ if l != want and l != "exc"]
+                if r.id in cfg.reachable([cfg.entry], block_edges=[(tnode, m, l) for m, l in tnode.succ if l == want]) or not other:
+                    continue
+                from .common import drop_none
+                sides = [drop_none(cfg, tnode, x_, origins(du, tnode, x_)) for x_ in (t.left, t.comparators[0])]
+                for a_, b_ in (sides, sides[::-1]):
+                    is_name = bool(a_) and all(o.kind == "param" and o.name == p_name and not o.path for o in a_)
+                    holder = bool(b_) and all(o.kind == "expr" and o.leaf is not None and _is_rev_read(o.leaf, strict=True) and o.path == (0,)
+                                              for o in b_)
+                    if is_name and holder:
+                        good = True
             obs.append(ctx.ob(good, fi.qualname, where(fi, r), "DuplicateUidError only if another name holds the uid",
-                              "raise requires `existing_name != name` with existing_name = %s[uid][0]" % REV,
+                              "raise requires `<holder> != name` with holder = %s[uid][0]" % REV,
                               "the DuplicateUidError refusal is not conditioned on the holder's name differing from the target name: "
                               "overwriting a resource with its own UID is refused, or a real conflict is not"))
         # every normal exit with a uid given passes the lookup (no bypass other than uid None / check disabled)
@@ -96,7 +101,7 @@ def u1(ctx):
         for t in cfg.nodes:
             if t.kind != "test":
                 continue
-            lab = test_polarity_absent(t.ast, fi.params[1] if len(fi.params) > 1 else "uid")
+            lab = test_polarity_absent(t.ast, p_uid)
             if lab:
                 byp.append((t, lab))
             if dotted(t.ast) == "self._check_for_duplicate_uids":
@@ -127,6 +132,18 @@ def u1(ctx):
                           "check_for_duplicate_uids defaults to True; no caller passes another value",
                           "the duplicate check is disabled: default=%s, overriding callers=%s" % (src(default) if default is not None else "?", [f.short for f, _ in offs])))
     return obs
+
+
+def _is_rev_read(x, strict=False) -> bool:
+    """``self._uid_to_fname[...]`` (load) or ``self._uid_to_fname.get(...)``; non-strict also ``k in self._uid_to_fname``."""
+    if isinstance(x, ast.Subscript) and dotted(x.value) == REV and isinstance(x.ctx, ast.Load):
+        return True
+    if isinstance(x, ast.Call) and isinstance(x.func, ast.Attribute) and x.func.attr == "get" and dotted(x.func.value) == REV:
+        return True
+    if not strict and isinstance(x, ast.Compare) and any(isinstance(o, (ast.In, ast.NotIn)) for o in x.ops) \
+            and any(dotted(c) == REV for c in x.comparators):
+        return True
+    return False
 
 
 def _subscript_sites(cfg, attr):
@@ -318,8 +335,7 @@ def u6(ctx):
     for cq in STORES:
         fi = ctx.own_method(cq, "_scan_uids")
         cfg = ctx.cfg(fi)
-        loops = [n for n in cfg.nodes if n.kind == "for" and isinstance(n.ast.iter, ast.Call)
-                 and (dotted(n.ast.iter.func) or "").split(".")[-1] in ("_iterblobs", "iter_with_etag")]
+        loops = loops_over(cfg, ("_iterblobs", "iter_with_etag"))
         if not loops:
             raise AnalysisError("%s._scan_uids: listing loop not found" % cq)
         uncond = cfg.exit.id not in cfg.reachable([cfg.entry], block_nodes=loops, follow_exc=False)
